@@ -90,6 +90,7 @@ def encodeS : SReg PyVal → PyVal
 
 def encodeI : IReg PyVal → PyVal
   | .frame _ l _ => .list [.str "frame", .bool l]
+  | .defer src _ _ => .list [.str "defer", .int src]
   | .spent => .list [.str "spent"]
   | .giter _ => .list [.str "giter"]
   | _ => .list [.str "other"]
